@@ -227,6 +227,8 @@ impl<'a> Reader<'a> {
             }
             match self.graph.file(self.ids.fileids[fileid]).input {
                 None => {
+                    // No longer an output of any build.
+                    unique_bid = None;
                     obsolete = true;
                 }
                 Some(bid) => {
